@@ -2,12 +2,18 @@
 
 Theorems (Props/C18.v) about the Gallina model of the context mechanism and of the decorated methods of
 MachineController / BMPController (Model/Context.v), whose signature list is regenerated from /repo on
-every run (Generated/GenSignatures.v, tools/dump_c18.py);
+every run (Generated/GenSignatures.v, tools/dump_c18.py; Generated/GenCtxGeometry.v for
+spinn5_local_eth_coord);
 correspondence: histories of nested with-blocks, application blocks, update_current_context, exceptions and
-calls of every decorated method in every way of passing the arguments, run on the real controllers (whose
-connections are recording fakes) and on the model, compared event by event;
+calls of every decorated method in every way of passing the arguments (and with the non-scalar argument
+shapes the methods accept: sequences of states, 1-/2-argument application maps), run on the real controllers
+(whose connections are recording fakes) and on the model; EVERY command of every call is compared (connection,
+destination, command, sub-command, words carrying the application id), plus exception classes, the events
+of block exits and the final stack;
 independent oracle: explicit > innermost context > default computed in Python from the dumped signatures,
-compared with what reached the fake connections; stack snapshots before/after every block.
+compared with EVERY command that reached the fake connections (destination, connection of the board holding
+the target from the shape of a SpiNN-5 board, application-id words); stack snapshots before/after every block;
+exactly one stop on leaving an application block.
 """
 import json
 import os
@@ -54,6 +60,7 @@ class Gen(object):
     def token(self):
         self.tok += 1
         return {"t": self.tok % 60}
+
 
     def ctl(self, cls):
         r = self.rng
@@ -249,6 +256,59 @@ class Gen(object):
             ops += self.block(cls, methods, ctl, inforce, 0)
         return dict(cls=cls, init=init, ctl=ctl, ops=ops,
                     params={m: [p for p, _ in sg["params"]] for m, sg in self.sigs[cls].items()}), self.shapes
+
+
+# ------------------------------------------------------------------ exhaustive small domain (thorough tier)
+ROLE_VALUES = {  # name: (explicit, innermost context, outer context)
+    "x": (1, 2, 3), "y": (4, 5, 6), "p": (7, 8, 9), "processor": (7, 8, 9), "app_id": (10, 20, 30),
+    "cabinet": (0, 1, 0), "frame": (1, 0, 1), "board": (1, 2, 3)}
+EXH_CTL = {"MC": dict(width=12, height=12, root=[0, 0], conns=[[[0, 0], 1], [[4, 8], 2], [[8, 4], 3]], bmp=[]),
+           "BMP": dict(width=None, height=None, root=None, conns=[],
+                       bmp=[[[0, 0], 0], [[0, 1], 1], [[1, 0], 2], [[1, 1], 3], [[0, 1, 1], 4], [[1, 0, 2], 5]])}
+
+
+def exhaustive_cases(sigs):
+    """Every decorated method x every number of positional arguments x every way (keyword / innermost
+    context only / outer context only / both contexts / nobody) of supplying each remaining contextual
+    argument (chip, core, application id; cabinet, frame, board), under two nested blocks and an empty
+    initial context."""
+    import itertools
+    gen = Gen(None, sigs, None)
+    cases = []
+    for cls in ("MC", "BMP"):
+        params = {m: [p for p, _ in sg["params"]] for m, sg in sigs[cls].items()}
+        for m, sg in sigs[cls].items():
+            if m == "application":
+                continue
+            names = [p for p, _ in sg["params"]]
+            kwonly = [k for k, _ in sg["kwonly"]]
+            for npos in range(len(names) + 1):
+                fixed = {}
+
+                def val(n, which=0):
+                    if n in ROLE_VALUES:
+                        return ROLE_VALUES[n][which]
+                    if n not in fixed:
+                        fixed[n] = {"size": 8, "length_bytes": 8, "link": 2, "tag": 3, "clear": True, "wait": False,
+                                    "signal": 2, "count": 1, "n_tries": 1, "iptag": 1, "led": 1, "fpga_num": 1,
+                                    "port": 50000, "ptr": 0x60000100, "address": 0x100 if m == "fill" else None,
+                                    "state": True if cls == "BMP" else None}.get(n)
+                        if fixed[n] is None:
+                            fixed[n] = gen.token()
+                    return fixed[n]
+                pos = [val(n) for n in names[:npos]]
+                if sg["varargs"]:
+                    pos = pos + ([0] if m == "send_scp" else [gen.token()])
+                rest = names[npos:] + kwonly
+                roles = [n for n in rest if n in ROLE_VALUES]
+                for modes in itertools.product(("kw", "inner", "outer", "both", "omit"), repeat=len(roles)):
+                    mode = dict(zip(roles, modes))
+                    kw = [[n, val(n)] for n in rest if mode.get(n, "kw") == "kw"]
+                    inner = [[n, ROLE_VALUES[n][1]] for n in roles if mode[n] in ("inner", "both")]
+                    outer = [[n, ROLE_VALUES[n][2]] for n in roles if mode[n] in ("outer", "both")]
+                    cases.append(dict(cls=cls, init=[], ctl=EXH_CTL[cls], params=params,
+                                      ops=[["with", outer, [["with", inner, [["call", m, pos, kw, False]]]]]]))
+    return cases
 
 
 # ------------------------------------------------------------------ Coq literals
@@ -749,6 +809,11 @@ def run(chk, args):
     chk.assumptions += [
         "_scp_data_length is already known (the buffer-size probe get_software_version(255, 255, 0) issued by "
         "the scp_data_length property is not part of the model)",
+        "the machine answers as the fake of harness/impl_c18.py: every command succeeds, memory reads return "
+        "zeros, an allocation returns 0x60000100, a count returns 1 (= the single core loaded); the model lists "
+        "every command of each method on that path; failure / retry paths are judged by the oracle only",
+        "the pseudo-address (255, 255) is pushed through the same connection arithmetic by the code; the model "
+        "reproduces it, the oracle makes no claim about the connection of commands addressed to (255, 255)",
         "application ids are bytes (0..255); machine dimensions are positive",
         "non-contextual arguments are well formed (aligned addresses for the link commands, valid signal / "
         "state names, 0 <= tag < 256, non-empty application maps and routing tables)",
@@ -788,6 +853,10 @@ def run(chk, args):
                     ms = ms[k:]
                     cases.append(c)
                     shapes += sh
+    if chk.tier == "thorough" and not args.replay:
+        ex = exhaustive_cases(sigs)
+        chk.count("exhaustive-shapes", len(ex))
+        cases = ex + cases
     corpus = os.path.join(lib.VERIF, "corpus", "C18.json")
     if os.path.exists(corpus):
         cases = json.load(open(corpus)) + cases
@@ -819,7 +888,7 @@ def run(chk, args):
         chk.count("geometry:" + ("known" if c["ctl"]["width"] and c["ctl"]["height"] and c["ctl"]["root"]
                                  else "unknown") if c["cls"] == "MC" else "bmp-connections:%d" % len(c["ctl"]["bmp"]))
         chk.note_case(dict(cls=c["cls"], init=c["init"], ctl=c["ctl"], ops=c["ops"]),
-                      ncalls >= 2 and any(op[0] in ("with", "app") for op in c["ops"]))
+                      (ncalls >= 2 or c["ctl"] is EXH_CTL[c["cls"]]) and any(op[0] in ("with", "app") for op in c["ops"]))
         why = Oracle(sigs, info, c, o).decide(o)
         if why:
             chk.fail_input(why[0], why[1], dict(case=c, observed=o))
@@ -859,5 +928,7 @@ def run(chk, args):
         "contextual names, application blocks, update_current_context, raise / try, and calls of every decorated "
         "method with each argument passed positionally / by keyword / via context / by default / left out, plus "
         "unexpected-keyword, multiple-values and too-many-positional shapes; every method is called in every round "
-        "(%d methods). non-trivial = a history with >= 2 calls and >= 1 block; distinct by hash of the history"
-        % n_methods)
+        "(%d methods). thorough tier adds the exhaustive enumeration: every method x every number of positional "
+        "arguments x every way (keyword / inner context / outer context / both / nobody) of supplying each "
+        "remaining contextual argument. non-trivial = a history with >= 2 calls and >= 1 block, or an enumerated "
+        "shape; distinct by hash of the history" % n_methods)
